@@ -252,6 +252,63 @@ var Scenarios = []Directed{
 		s.Transfer(4, 5, "1e18")
 		s.End()
 	}},
+	{"evidence_burst", []string{"C14", "C15"}, fam(3), func(s *Script) {
+		// several pieces of evidence in one block while proposals are open: against two different voters, twice
+		// against the same voter, and against a voter plus a stranger
+		s.Blocks(3, allHdr)
+		s.Begin(allHdr) // 4
+		s.expect(OK(s.Propose(1, 6, 5, 14, `{"slashRatio":"30"}`, `{"slashRatio":"40"}`)), "proposal A")
+		s.expect(OK(s.Propose(2, 7, 4, 14, `{"minTrxGas":"5000"}`)), "proposal B")
+		s.expect(OK(s.Stake(5, 1, "40e18")), "a delegation to a1")
+		s.End()
+		p := s.Proposals()
+		s.Blocks(1, allHdr)
+		s.Begin(allHdr) // 6
+		for _, id := range p {
+			s.Vote(1, id, 0)
+			s.Vote(2, id, 0)
+		}
+		s.End()
+		s.Begin(Hdr{Evidence: []int{2, 3}}) // 7: two offenders, one has voted and one has not
+		for _, id := range p {
+			s.Vote(4, id, 0)
+		}
+		s.End()
+		s.Begin(Hdr{Evidence: []int{1, 1}}) // 8: the same offender twice
+		s.End()
+		s.Begin(Hdr{Evidence: []int{4, 2, 4}, EvStranger: true}) // 9
+		for _, id := range p {
+			s.Vote(3, id, 0)
+		}
+		s.End()
+		s.Blocks(8, allHdr)
+	}},
+	{"swap_delegators", []string{"C13", "C11"}, fam(0), func(s *Script) {
+		// a validator's total power stays the same while the stakes behind it change: one delegator leaves and
+		// another bonds the same amount in the same block, then again one and two blocks apart
+		s.Blocks(2, allHdr)
+		s.Begin(allHdr) // 3
+		s.expect(OK(s.Stake(4, 1, "4e18")), "a4 -> a1")
+		s.End()
+		s.Blocks(5, allHdr)
+		s.Begin(allHdr) // 9
+		s.expect(OK(s.Unstake(4, 1, s.StakeIDs(4, 1)[0])), "a4 leaves a1")
+		s.expect(OK(s.Stake(5, 1, "4e18")), "a5 takes its place with the same power")
+		s.End()
+		s.Blocks(5, allHdr)
+		s.Begin(allHdr) // 15
+		s.expect(OK(s.Unstake(5, 1, s.StakeIDs(5, 1)[0])), "a5 leaves a1")
+		s.End()
+		s.Begin(allHdr) // 16
+		s.expect(OK(s.Stake(6, 1, "4e18")), "a6 takes its place one block later")
+		s.End()
+		s.Blocks(2, allHdr)
+		s.Begin(allHdr) // 19
+		s.expect(OK(s.Unstake(6, 1, s.StakeIDs(6, 1)[0])), "a6 leaves")
+		s.expect(OK(s.Stake(1, 1, "4e18")), "the validator itself replaces the power")
+		s.End()
+		s.Blocks(6, allHdr)
+	}},
 	{"two_proposals_one_block", []string{"C15", "C16"}, fam(0), func(s *Script) {
 		s.Blocks(3, allHdr)
 		s.Begin(allHdr)
